@@ -99,7 +99,8 @@ def check_program(ctx, name, prog, vm='mbuff', helpers=(), props=('C03',), fixed
     pr = ctx.pr; S = ctx.I.S; cands = []
     r = ctx.drv.request(dict(op='compile', vm=vm, prog=prog.hex(), engine='jit', helpers=[list(h) for h in helpers], fixed=list(fixed) if fixed else None))
     if r.get('status') != 'ok':
-        pr.out['errors'].append(f'{name}: jit_compile failed: {r.get("status")} {r.get("msg")}'); return cands
+        cands.append(dict(role=f'{whole_role}/{name}/compile-refused', detail=f'jit_compile fails on the verifier-accepted program {name} (helpers registered: {[h[0] for h in helpers]}): {r.get("status")} {str(r.get("msg"))[:160]}', model=None, prog=prog.hex() if len(prog) < 4000 else None, progname=name, friendly=True))
+        return cands
     code = bytes.fromhex(r['code'])
     X = x86sym.X86(code, ctx.timeout_ms); X.hcall = S.hcall; X.max_steps = 30000
     st0, X0 = entry_x86(S, vm, fixed)
